@@ -455,6 +455,106 @@ def rule_lookup(ctx, f):
                   g["span"], detail="out of table -> Err(UnspecifiedXRefEntry) via slice::get")
 
 
+# ----------------------------------------------------------------------------- G4
+def _root(b, fl, l, depth=0):
+    """the local a borrow / reborrow chain starts from: `&mut *(&mut L)` -> L"""
+    ds = fl.defs.get(l, [])
+    if depth < 8 and len(ds) == 1 and ds[0][0] == "assign" and not (1 <= l <= b["argc"]):
+        rv = ds[0][2]
+        if rv[0] in ("ref", "rawptr"):
+            return _root(b, fl, rv[1][0], depth + 1)
+        if rv[0] == "use" and rv[1][0] in ("copy", "move") and len(rv[1][1]) == 1:
+            return _root(b, fl, rv[1][1][0], depth + 1)
+    return l
+
+
+def writes_through(f, b, p, depth=0):
+    """parameter p (a `&mut` to a slice cursor) is advanced: `*p = ..` here, or p (re-borrowed) is handed to a local
+    callee that does"""
+    fl = Flow(b)
+    for i, j, st in F.stmts(b):
+        if st[0] == "assign" and len(st[1]) > 1 and st[1][1][0] == "deref" and _root(b, fl, st[1][0]) == p:
+            return True
+    if depth > 3:
+        return False
+    for bi, t in F.calls(b):
+        cb = f.bodies.get(t.get("resolved") or t.get("callee"))
+        if cb is None:
+            continue
+        for k, a in enumerate(t["args"]):
+            l = F.op_local(a)
+            if l is not None and t["arg_tys"][k]["k"] == "refmut" and _root(b, fl, l) == p and writes_through(f, cb, k + 1, depth + 1):
+                return True
+    return False
+
+
+def rule_cursor(ctx, f):
+    ctx.rule("C02-G4", "xref-stream reader: the entries of the /Index subsections are consecutive in the stream data - the data cursor lives "
+             "outside the subsection loop and every field read advances it (through `&mut`), or the loop re-assigns it")
+    is_read = lambda nm, t: last_seg(nm) == "read_u64_from_stream"
+    rdr = [b for b in f.bodies.values() if call_sites(b, is_read)
+           and any(s[0] == "assign" and s[2][0] == "aggregate" and s[2][1].get("adt") == XREF for i, j, s in F.stmts(b))]
+    if not ctx.floor("C02-G4", len(rdr), 1, "xref-stream section reader"):
+        return
+    n = 0
+    for rb in rdr:
+        fl = Flow(rb)
+        rcfg = CFG(rb)
+        reads = call_sites(rb, is_read)
+        roots = []
+        for bi, t in reads:
+            ks = [k for k, ty in enumerate(t["arg_tys"]) if ty["k"] == "refmut"]
+            l = F.op_local(t["args"][ks[0]]) if ks else None
+            roots.append(_root(rb, fl, l) if l is not None else None)
+        # callers: the call sits in a loop; its cursor argument is a &mut to a local that the loop does not re-initialise and that
+        # every field read of the reader advances, or a slice value whose local is re-assigned inside the loop
+        for cb in f.bodies.values():
+            for bi, t in call_sites(cb, lambda nm, t: (t.get("resolved") or nm) == rb["id"] or nm == rb["id"]):
+                cfg = CFG(cb)
+                loops = [(h, body) for h, body in cfg.loops().items() if bi in body]
+                if not loops:
+                    continue
+                cfl = Flow(cb)
+                ok = False
+                why = "no slice cursor argument"
+                for k, ty in enumerate(t["arg_tys"]):
+                    if "[u8]" not in ty["s"]:
+                        continue
+                    l = F.op_local(t["args"][k])
+                    if l is None:
+                        continue
+                    root = _root(cb, cfl, l)
+                    inloop = [d for d in cfl.defs.get(root, []) if d[0] in ("assign", "call") and any(d[1] in body for h, body in loops)]
+                    if ty["k"] == "refmut":
+                        if inloop:
+                            why = "the cursor is re-initialised inside the subsection loop"
+                        elif not writes_through(f, rb, k + 1):
+                            why = "the reader never advances the cursor it is given"
+                        elif any(r != k + 1 for r in roots):
+                            why = "a field read of the reader consumes a private copy of the data, not the cursor it is given"
+                        else:
+                            ok = True
+                    else:
+                        if inloop and len(cfl.defs.get(root, [])) > len(inloop):
+                            ok = True
+                        else:
+                            why = "the data is passed by value and the loop never re-assigns it: every subsection is read from the start of the data"
+                n += 1
+                ctx.check(ok, "C02-G4", cb["id"] + "#subsection-cursor", "xref stream with several /Index subsections: " + why, t["span"],
+                          detail="cursor outside the loop, advanced by every read")
+        # inlined form (the reader holds the subsection loop itself): the cursor is a local that lives outside every loop around the read
+        for (bi, t), root in zip(reads, roots):
+            lps = [body for body in rcfg.loops().values() if bi in body]
+            if root is None or (1 <= root <= rb["argc"]) or len(lps) < 2:
+                continue
+            ds = fl.defs.get(root, [])
+            ok = not any(d[1] in body for d in ds if d[0] in ("assign", "call") for body in lps)
+            n += 1
+            ctx.check(ok, "C02-G4", rb["id"] + "#own-cursor", "the data cursor is re-initialised inside the subsection loop: every subsection is read from the "
+                      "start of the data", t["span"], detail="cursor defined outside the loops")
+    ctx.floor("C02-G4", n, 1, "subsection loops with a data cursor")
+
+
 def run(ctx):
     f = F.load("default")
     ctx.count("bodies", len(f.bodies))
@@ -463,6 +563,7 @@ def run(ctx):
     rule_walk(ctx, f)
     rule_typebytes(ctx, f)
     rule_lookup(ctx, f)
+    rule_cursor(ctx, f)
     return ctx.finish(
         "Static analysis of MIR facts (mirx) of crate pdf: merge-precedence table extracted by enumerating the CFG paths of one "
         "merge iteration per variant of the existing entry and compared with the newest-first rule; provenance of section "
